@@ -150,7 +150,7 @@ def partnerless_oracle(res, cases):
 def run(res, tier, seed):
     res.rule = RULE
     rnd = random.Random(seed * 7368787 + 5)
-    cases = gen_cases(rnd, 6000 if tier == 'quick' else 120000)
+    cases = gen_cases(rnd, 12000 if tier == 'quick' else 120000)
     for c in cases:
         if c['A']:
             res.nontrivial.add(json.dumps([c['q'], c['A'], c['B']], sort_keys=True))
